@@ -76,12 +76,26 @@ def eval_img(img, out_lines):
     stats = dict(q=0, mapped=0, fast_ok=0, hw_ok=0, both_ok=0, rt=0, rt_ok=0, untranslatable=0)
     osinit = None
     maps, meths = {}, {}
-    for o in out_lines:
+    # a history image initialises the same addrxlat_sys_t several times: the property is about the state after the LAST one
+    last = max([i for i, o in enumerate(out_lines) if o.startswith("osinit ")] or [0])
+    for o in out_lines[:last]:
+        if o.startswith("osinit ") and "LEFT" in o:
+            fails.append(("in-flight translation list not empty after addrxlat_sys_os_init", o))
+    complete = img.root_known          # the library was told enough to read the image's page tables (generator's statement)
+    for o in out_lines[last:]:
         w = o.split()
+        if w[0] in ("q", "rt") and osinit != "ok":
+            # the property is about a system the library HAS set up; what a failed addrxlat_sys_os_init leaves behind is not judged
+            stats["after_failed_init"] = stats.get("after_failed_init", 0) + 1
+            continue
         if w[0] == "osinit":
             osinit = w[1]
             if "LEFT" in o:
                 fails.append(("in-flight translation list not empty after addrxlat_sys_os_init", o))
+            if osinit != "ok" and complete:
+                # not a violation (the property is conditional on a successful set-up); counted, so that a generator whose
+                # "complete" images stop initialising shows up in the evidence
+                stats["complete_but_failed"] = 1
         elif w[0] == "map":
             maps[int(w[1])] = w[2]
         elif w[0] == "meth":
@@ -103,7 +117,13 @@ def eval_img(img, out_lines):
                 fails.append(("conversion to KPHYSADDR of %#x succeeded with a result in address space %d" % (va, fas), o))
                 continue
             if exp is None:
-                continue            # the property speaks about addresses the image's page tables map
+                # the property speaks about addresses the image's page tables map; but a hardware walk that finds a
+                # translation the image's page tables do not contain contradicts them just as well
+                if hst == "ok" and complete:
+                    fails.append(("virtual address %#x is not mapped by the image's page tables, the library's hardware walk "
+                                  "(after OS set-up) translates it to %#x%s" %
+                                  (va, had, (" and the KV->PHYS conversion to %#x" % fad) if fst == "ok" else ""), o))
+                continue
             if fst == "ok" and hst == "ok":
                 stats["both_ok"] += 1
                 if fad != had:
@@ -121,6 +141,10 @@ def eval_img(img, out_lines):
                               "conversion fails with %s" % (va, exp, fst), o))
             elif fst != "ok" and hst != "ok":
                 stats["untranslatable"] += 1
+                if complete and osinit == "ok":
+                    fails.append(("virtual address %#x is mapped by the image's page tables (to %#x) and the library was given a "
+                                  "readable root page table, but neither the KV->PHYS conversion (%s) nor the hardware walk (%s) "
+                                  "translates it" % (va, exp, fst, hst), o))
         elif w[0] == "rt":
             pa = int(w[1])
             parts = o.split(" | ")
@@ -336,11 +360,12 @@ SCENARIOS = [
     # a Xen-enabled 2.6.18 kernel keeps its direct map at 0xffff880000000000 (mainline: 0xffff810000000000)
     ("x86_64-linux-2.6.18-xen-placement", "gen_x86_64_linux",
      dict(ver=G.VER(2, 6, 18), page_offset=0xffff880000000000, rootsrc="cr3", levels=4, rcaps=3)),
-    ("x86_64-linux-2.6.18-mainline", "gen_x86_64_linux", dict(ver=G.VER(2, 6, 18), page_offset=0xffff810000000000, levels=4)),
+    ("x86_64-linux-2.6.18-mainline", "gen_x86_64_linux", dict(ver=G.VER(2, 6, 18), page_offset=0xffff810000000000, levels=4, rootsrc="sym",
+                                                          phys_base_opt=True)),
     ("x86_64-linux-2.6.9", "gen_x86_64_linux", dict(ver=G.VER(2, 6, 9), page_offset=0x0000010000000000, levels=4, rootsrc="cr3")),
     ("x86_64-linux-kaslr-neg-phys-base", "gen_x86_64_linux",
      dict(ver=G.VER(5, 4, 0), levels=4, kaslr_v=400 * G.MB, pload=16 * G.MB, phys_base_opt=True, rootsrc="sym")),
-    ("x86_64-linux-5level", "gen_x86_64_linux", dict(levels=5, rootsrc="sym", phys_base_opt=True)),
+    ("x86_64-linux-5level", "gen_x86_64_linux", dict(levels=5, rootsrc="sym", phys_base_opt=True, l5src="cr4")),
     ("x86_64-linux-1g-directmap", "gen_x86_64_linux", dict(gran=3, rootsrc="cr3")),
     ("x86_64-linux-4k-directmap", "gen_x86_64_linux", dict(gran=1, rootsrc="sym", phys_base_opt=True)),
     ("x86_64-linux-sme", "gen_x86_64_linux", dict(sme=True, rootsrc="sym", phys_base_opt=True)),
@@ -350,24 +375,72 @@ SCENARIOS = [
     ("x86_64-xen-4.4", "gen_x86_64_xen", dict(variant="4.4", ver=G.XENVER(4, 4), rootsrc="sym")),
     ("x86_64-xen-3.2", "gen_x86_64_xen", dict(variant="3.2")),
     ("x86_64-xen-4.8-stubs", "gen_x86_64_xen", dict(variant="4.4", ver=G.XENVER(4, 8), stubs=True, rootsrc="cr3")),
-    ("ia32-vmap_area_list", "gen_ia32_linux", dict(vsrc="vmap_area_list", first_area_off=0, pae=False)),
-    ("ia32-pae-vmap_area_list", "gen_ia32_linux", dict(vsrc="vmap_area_list", first_area_off=0, pae=True)),
-    ("ia32-vmlist", "gen_ia32_linux", dict(vsrc="vmlist", first_area_off=0)),
+    ("ia32-vmap_area_list", "gen_ia32_linux", dict(vsrc="vmap_area_list", first_area_off=0, pae=False, rootsrc="sym")),
+    ("ia32-pae-vmap_area_list", "gen_ia32_linux", dict(vsrc="vmap_area_list", first_area_off=0, pae=True, rootsrc="cr3+sym")),
+    ("ia32-vmlist", "gen_ia32_linux", dict(vsrc="vmlist", first_area_off=0, rootsrc="sym")),
     ("ia32-no-vmalloc-start", "gen_ia32_linux", dict(vsrc="none", rootsrc="cr3+sym")),
-    ("riscv64-sv39", "gen_riscv64_linux", dict(levels=3, rootsrc="sym")),
-    ("riscv64-sv48-1g", "gen_riscv64_linux", dict(levels=4, gran=3)),
-    ("riscv64-sv57", "gen_riscv64_linux", dict(levels=5, gran=2)),
-    ("aarch64-4k-48-new", "gen_aarch64_linux", dict(geom=(12, 48), new_layout=True, hsrc="stext")),
-    ("aarch64-4k-39-old", "gen_aarch64_linux", dict(geom=(12, 39), new_layout=False, hsrc="ver")),
-    ("aarch64-64k-42", "gen_aarch64_linux", dict(geom=(16, 42), new_layout=True, hsrc="stext")),
-    ("aarch64-16k-47", "gen_aarch64_linux", dict(geom=(14, 47), new_layout=False, hsrc="stext")),
+    ("riscv64-sv39", "gen_riscv64_linux", dict(levels=3, rootsrc="sym", vb=(True, False))),
+    ("riscv64-sv48-1g", "gen_riscv64_linux", dict(levels=4, gran=3, rootsrc="opt", vb=(False, True))),
+    ("riscv64-sv57", "gen_riscv64_linux", dict(levels=5, gran=2, rootsrc="sym", vb=(True, True))),
+    ("aarch64-4k-48-new", "gen_aarch64_linux", dict(geom=(12, 48), new_layout=True, hsrc="stext", rootsrc="sym", vb=(1, 0, 0))),
+    ("aarch64-4k-39-old", "gen_aarch64_linux", dict(geom=(12, 39), new_layout=False, hsrc="ver", rootsrc="opt", vb=(0, 1, 0))),
+    ("aarch64-64k-42", "gen_aarch64_linux", dict(geom=(16, 42), new_layout=True, hsrc="both", rootsrc="sym", vb=(0, 0, 1))),
+    ("aarch64-16k-47", "gen_aarch64_linux", dict(geom=(14, 47), new_layout=False, hsrc="stext", rootsrc="sym", vb=(1, 1, 1))),
+    # ---- 32-bit Arm (short descriptors): with / without the phys_base option, every root source, every page size
+    ("arm-sections-physical-root-no-phys_base", "gen_arm_linux",
+     dict(dm="sect", rootopt="machphys", swapper=True, stext=True, phys_base_opt=False, rcaps=3, phys_off=0x40000000, page_offset=0xc0000000)),
+    ("arm-2.6.24-like-phys_base", "gen_arm_linux",
+     dict(dm="sect", rootopt=None, swapper=True, stext=True, phys_base_opt=True, rcaps=3, phys_off=0x40000000, page_offset=0xc0000000,
+          text_off=0x208000)),
+    ("arm-kvaddr-only-reads", "gen_arm_linux", dict(dm="sect", rootopt="machphys", stext=True, phys_base_opt=True, rcaps=4)),
+    ("arm-supersections-kv-root-kv-reads", "gen_arm_linux",
+     dict(dm="super", rootopt=None, swapper=True, stext=True, phys_base_opt=False, rcaps=7, phys_off=0x80000000, lowmem=512 << 20)),
+    ("arm-small-pages-big-endian", "gen_arm_linux", dict(dm="small", be=True, rootopt="kphys", stext=True, phys_base_opt=False, rcaps=1)),
+    ("arm-large-pages", "gen_arm_linux", dict(dm="large", rootopt="kphys", stext=True, phys_base_opt=True, rcaps=3, phys_off=0x10000000)),
+    ("arm-mixed-no-stext", "gen_arm_linux", dict(dm="mixed", stext=False, rootopt="kphys", rcaps=3)),
+    ("arm-vmsplit-2g-phys-0", "gen_arm_linux", dict(dm="mixed", page_offset=0x80000000, phys_off=0, rootopt="kv", stext=True,
+                                                    phys_base_opt=True, rcaps=2)),
+    # ---- x86_64: combinations of the optional inputs of get_virt_bits / get_linux_pgt_root
+    ("x86_64-linux-5level-stext-and-l5-number-no-cr4", "gen_x86_64_linux",
+     dict(levels=5, l5src="num", stext=True, rootsrc="cr3", page_offset=0xff11000000000000, rcaps=3)),
+    ("x86_64-linux-5level-every-indication", "gen_x86_64_linux",
+     dict(levels=5, in_vbits=True, in_cr4=True, in_num=True, stext=True, rootsrc="sym", phys_base_opt=True)),
+    ("x86_64-linux-4level-l5-number-0-and-stext", "gen_x86_64_linux", dict(levels=4, l5src="num", stext=True, rootsrc="opt-phys")),
+    ("x86_64-linux-4level-by-version-only", "gen_x86_64_linux", dict(levels=4, l5src="ver", ver=G.VER(4, 12, 14), rootsrc="cr3")),
+    ("x86_64-linux-symbol-and-cr3-and-option", "gen_x86_64_linux",
+     dict(levels=4, stext=True, in_rootopt="phys", in_top=True, in_l4=True, in_cr3=True, phys_base_opt=False)),
+    ("x86_64-linux-xen_xlat-0", "gen_x86_64_linux", dict(xen_xlat0=True, rootsrc="cr3")),
+    # ---- histories: the same addrxlat_sys_t initialised more than once
+    ("history-xen_xlat-then-bare-metal", "gen_history",
+     dict(kind="xenxlat->bare", first=("gen_x86_64_linux", dict(levels=4, rootsrc="cr3", xen_xlat1=True, ver=G.VER(4, 4, 0))),
+          last=("gen_x86_64_linux", dict(levels=4, rootsrc="cr3", ver=G.VER(4, 4, 0))))),
+    ("history-xen-hypervisor-then-linux", "gen_history",
+     dict(kind="xen->linux", first=("gen_x86_64_xen", dict(variant="4.4", rootsrc="cr3")), last=("gen_x86_64_linux", dict(levels=4, rootsrc="sym", phys_base_opt=True)))),
+    ("history-linux-then-xen-by-version", "gen_history",
+     dict(kind="linux->xen", first=("gen_x86_64_linux", dict(levels=4, rootsrc="cr3", phys_base_opt=True)),
+          last=("gen_x86_64_xen", dict(variant="4.4", ver=G.XENVER(4, 6), in_none=True)))),
+    ("history-5level-then-4level", "gen_history", dict(kind="5level->4level")),
+    ("history-4level-then-5level", "gen_history", dict(kind="4level->5level")),
+    ("history-x86_64-then-arm", "gen_history",
+     dict(kind="arch->arch", first=("gen_x86_64_linux", dict(rootsrc="cr3")), last=("gen_arm_linux", dict(rootopt="kphys", stext=True, phys_base_opt=False, rcaps=3)))),
+    ("history-aarch64-then-ia32", "gen_history",
+     dict(kind="arch->arch", first=("gen_aarch64_linux", dict(rootsrc="sym")), last=("gen_ia32_linux", dict(vsrc="vmlist", rootsrc="cr3+sym")))),
+    ("history-failed-then-good", "gen_history",
+     dict(kind="failed->good", first=("gen_x86_64_linux", dict(levels=4, rootsrc="cr3")), fail_first=True,
+          last=("gen_x86_64_linux", dict(levels=4, rootsrc="sym", phys_base_opt=True)))),
+    ("history-same-image-twice", "gen_history", dict(kind="same-twice")),
+    ("history-three-inits", "gen_history", dict(kind="three")),
 ]
-GENS = [("gen_x86_64_linux", 6), ("gen_x86_64_xen", 3), ("gen_ia32_linux", 3), ("gen_riscv64_linux", 2), ("gen_aarch64_linux", 3)]
+GENS = [("gen_x86_64_linux", 6), ("gen_x86_64_xen", 3), ("gen_ia32_linux", 3), ("gen_riscv64_linux", 2), ("gen_aarch64_linux", 3),
+        ("gen_arm_linux", 4), ("gen_history", 4)]
 
 
 def known_key(img, msg, obs_line):
     """stable key of a finding listed in KNOWN_FINDINGS, or None"""
-    if img.arch in ("ia32", "i386", "i486", "i586", "i686") and img.desc.get("vsrc") == "none" and obs_line.startswith("rt "):
+    if img.arch in ("ia32", "i386", "i486", "i586", "i686") and img.desc.get("vsrc") == "none" and \
+            (obs_line.startswith("rt ") or (img.desc.get("root_as") == "kv" and "but neither the" in msg)):
+        # second form of the same finding: with a KVADDR root (swapper_pg_dir / rootpgt=KVADDR) and no cr3 the root itself is
+        # only reachable through the direct map that set_linux_directmap() has dropped: nothing translates
         return "ia32-rdirect-without-vmalloc-start"
     if img.os == "xen" and img.desc.get("stubs"):
         for name, first, last, _ in img.regions:
@@ -498,7 +571,8 @@ def run(R):
                 break
             x -= w
         jobs.append(("random", g, R.rng.getrandbits(48), None))
-    tot = dict(images=0, q=0, mapped=0, both_ok=0, rt=0, rt_ok=0, untranslatable=0, osinit_fail=0)
+    tot = dict(images=0, q=0, mapped=0, both_ok=0, rt=0, rt_ok=0, untranslatable=0, osinit_fail=0, complete=0, complete_but_failed=0,
+               after_failed_init=0)
     per_gen, hist, nontriv = {}, {}, 0
     samples = []
     import time
@@ -516,7 +590,11 @@ def run(R):
             tot[k] += st[k]
         if st["osinit"] != "ok":
             tot["osinit_fail"] += 1
-        for k in ("levels", "gran", "rootsrc", "variant", "pae", "vsrc", "l5src", "rcaps", "sme", "page_bits", "va_bits", "new_layout", "hsrc"):
+        tot["complete"] += 1 if img.root_known else 0
+        tot["complete_but_failed"] += st.get("complete_but_failed", 0)
+        tot["after_failed_init"] += st.get("after_failed_init", 0)
+        for k in ("levels", "gran", "rootsrc", "variant", "pae", "vsrc", "l5src", "rcaps", "sme", "page_bits", "va_bits", "new_layout", "hsrc",
+                  "dm", "phys_base_opt", "stext", "vbsrc", "history", "be", "xen_xlat0"):
             if k in img.desc:
                 hk = "%s.%s=%s" % (gen[4:], k, img.desc[k])
                 hist[hk] = hist.get(hk, 0) + 1
@@ -538,7 +616,8 @@ def run(R):
             key = known_key(img, msg, o) if o != "crash" else None
             cls = ("fast-vs-hw" if "fast path gives" in msg else "fast-vs-image" if "KV->PHYS conversion gives" in msg else
                    "hw-vs-image" if "hardware walk (after" in msg else "fast-fails" if "conversion fails" in msg else
-                   "roundtrip" if "reverse direct map" in msg else msg[:30])
+                   "roundtrip" if "reverse direct map" in msg else "hw-unmapped" if "is not mapped by the image" in msg else
+                   "untranslatable" if "but neither the" in msg else msg[:30])
             tag = key or (gen, cls)
             if tag in reported:
                 continue
